@@ -390,6 +390,13 @@ written (`prefix` or `prefix-maxlen`) as a text `MaxLenPrefix::from_str` reads b
 theorem maxlen_text_roundtrip (m : Mlp) (hp : PfxText.PfxWF m.pfx) (hm : mlpNew m.pfx m.ml = .ok m) :
     PfxText.parseMlp (PfxText.fmtMlp m) = .ok m := PfxText.parseMlp_fmt m hp hm
 
+/-- **Parsed max-length prefixes obey the max-length rule.** What `MaxLenPrefix::from_str` accepts is a
+value `MaxLenPrefix::new` returns for a well-formed prefix (so prefix length ≤ max length ≤ family
+maximum, by `mlpNew_ok_iff`), and it is read back from its own text. -/
+theorem parsed_maxlen_sound (s : ResText.Bytes) (m : Mlp) (h : PfxText.parseMlp s = .ok m) :
+    PfxText.PfxWF m.pfx ∧ mlpNew m.pfx m.ml = .ok m ∧ PfxText.parseMlp (PfxText.fmtMlp m) = .ok m :=
+  PfxText.parseMlp_sound s m h
+
 /-- **AS number text.** `AS<decimal>` parses back to the number, for every 32-bit number. -/
 theorem asn_text_roundtrip (n : Nat) (h : n < 2 ^ 32) :
     ResText.parseAsn (PfxText.fmtAsn n) = some n := ResText.parseAsn_fmt n h
